@@ -18,7 +18,7 @@ ELECTION_ID = "2022-11-08_USA_G"
 
 ROLES = [
     "reporting", "reporting", "reporting", "reporting", "reporting", "partial", "partial", "zero-percent",
-    "zero-baseline", "blocklisted", "strange-low", "strange-high", "missing", "nan-estimand",
+    "zero-baseline", "blocklisted", "strange-low", "strange-high", "missing", "nan-estimand", "third-party-heavy",
 ]
 
 
@@ -223,6 +223,12 @@ def feed_row(rng, e, row, role):
         d = t // 2
         g = t - d
         pev = 100
+    elif role == "third-party-heavy":
+        # many votes for other parties: the two-party turnout factor (1.9) and the total one (2.2) sit on different sides of
+        # the usual upper limit 2.0 - which one is used decides whether the unit is modelled
+        d, g = int(round(bd * 1.9)), int(round(bg * 1.9))
+        t = int(round(bt * 2.2))
+        pev = 100
     elif role == "nan-estimand":
         d, g, t = counts(0.7, 1.4)
         pev = 100
@@ -274,7 +280,8 @@ def client_mod():
 
 
 def run_client(e, estimands=("turnout",), alphas=(0.5,), pi_method="nonparametric", aggregates=None, params=None,
-               policy="drop", features=(), fixed_effects=None, client=None, extra=None, keep_client=False, reuse_feed=False):
+               policy="drop", features=(), fixed_effects=None, client=None, extra=None, keep_client=False, reuse_feed=False,
+               derived_feed=False):
     """returns {"tables": {name: DataFrame}} or {"raises": class name, "msg": ...}"""
     cm = client_mod()
     cl = client or cm.ModelClient()
@@ -292,9 +299,17 @@ def run_client(e, estimands=("turnout",), alphas=(0.5,), pi_method="nonparametri
         fixed_effects=copy.deepcopy(fixed_effects) if fixed_effects is not None else {},
     )
     kw.update(extra or {})
+    feed = e.cur if reuse_feed else e.cur.copy()
+    if derived_feed and "margin" in estimands:
+        # a feed that already went through the Estimandizer once (mock live data, a previous poll): derived columns present
+        feed = feed.copy()
+        feed["results_weights"] = feed["results_dem"] + feed["results_gop"]
+        feed["results_margin"] = feed["results_dem"] - feed["results_gop"]
+        with np.errstate(all="ignore"):
+            feed["results_normalized_margin"] = np.nan_to_num(feed["results_margin"] / feed["results_weights"], nan=0, posinf=0, neginf=0)
     try:
         with np.errstate(all="ignore"):
-            res = cl.get_estimates(e.cur if reuse_feed else e.cur.copy(), ELECTION_ID, e.office, list(estimands), list(alphas), e.threshold,
+            res = cl.get_estimates(feed, ELECTION_ID, e.office, list(estimands), list(alphas), e.threshold,
                                    e.unit_type, **kw)
     except Exception as ex:  # the exception class is an observable
         out = {"raises": type(ex).__name__, "msg": str(ex)[:300]}
